@@ -545,3 +545,18 @@ Definition decimal_nanos (ip : N) (frac : list N) : N :=
     ceil(max/d) rounds: the last round started before the ceiling was reached. *)
 Definition c04_os_sb (max d rounds : N) : bool :=
   (rounds =? 0) || ((rounds - 1) * d <? max).
+
+(** C19 end to end (the real runner, the benchmark on the virtual clock, the
+    history read from the event log): the sizes of the rounds follow the tuning
+    sequence, the rounds follow the rule (max_time covers the tuning rounds, the
+    first passing round counts), the reported samples are those of the kept
+    rounds and the reported iters that number times the last round's size. *)
+Definition c19_e2e_sb (c : cfg) (init : N) (hist : list round_obs) (sizes : list N) (samples iters : N) : bool :=
+  let k := length hist in
+  if zero_case c || negb (tuned c) then true
+  else
+    list_eqb sizes (sizes_of c hist k) &&
+    forallb (fun j => continue_after c init hist j) (seq 0 k) &&
+    negb (continue_after c init hist k) &&
+    (samples =? total_len (kept_of c hist)) &&
+    (iters =? samples * last sizes 0).
